@@ -268,6 +268,35 @@ def rfc4515_sentence(text: str) -> bool:
             break
 
 
+class Hang(BaseException):
+    """a call did not return within its CPU budget"""
+
+
+def guarded(fn, seconds=5.0):
+    """fn() under a CPU-time limit of this process (ITIMER_VIRTUAL): pure-Python loops that stop advancing are interrupted between
+    bytecodes and reported, instead of hanging the check"""
+    import signal
+
+    def on_alarm(signum, frame):
+        raise Hang()
+
+    old = signal.signal(signal.SIGVTALRM, on_alarm)
+    signal.setitimer(signal.ITIMER_VIRTUAL, seconds)
+    try:
+        return fn()
+    finally:
+        signal.setitimer(signal.ITIMER_VIRTUAL, 0)
+        signal.signal(signal.SIGVTALRM, old)
+
+
+# whitespace other than U+0020 (str.isspace() / bytes.isspace() classes, incl. surrogate-escaped 0x85 / 0xA0) at every structural position:
+# none of it is padding the library documents; it must be rejected (or parsed) promptly, never looped over
+ODD_SPACE = ["\t", "\n", "\r", "\x0b", "\x0c", "\x1c", "\x1d", "\x1e", "\x1f", "\x85", "\xa0", "\u2028", "\u3000", "\udc85", "\udca0", "\t\t", " \t ", "\n "]
+for _w in ODD_SPACE:
+    FIXED_TEXTS += ["(&" + _w + "(a=b))", "(&(a=b)" + _w + "(c=d))", "(&(a=b)" + _w + ")", "(|" + _w + "(a=b)(c=d))", "(!" + _w + "(a=b))", "(!(a=b)" + _w + ")",
+                    "(" + _w + "a=b)", "(" + _w + "&(a=b))", "(a=b)" + _w + "x", "(&(|(a=b)" + _w + "(c=d))(e=f))", "(&\n(a=b)\n(c=d)\n)".replace("\n", _w)]
+
+
 def check_accept_properties(text, f):
     """C15: whenever the parser accepts, the result is representable: valid attributes / rules, and its own text parses back"""
     out = []
@@ -303,25 +332,42 @@ def check_accept_properties(text, f):
             out.append({"key": None, "what": f"accepted {nm} {val!r} is not RFC 4512-valid", "text": text})
 
     walk(f)
+    nest = text.count("(&") + text.count("(|") + text.count("(!")
+
+    def stack_finding(where):
+        # F-C15n: the parser accepts nesting up to the interpreter's stack (≈ 497 levels at the default limit), but printing / comparing
+        # the result needs more stack per level — only hundreds of levels of nesting can show this; at ordinary depths it is a plain violation
+        out.append({"key": "C15:deep-accepted-filter-text-form-recursion" if nest >= 200 else None,
+                    "what": f"the parser accepted a filter nested {nest} levels deep, but {where} raises RecursionError: its own text form cannot be "
+                            "produced / parsed back / compared", "text": text[:200] + ("…" if len(text) > 200 else ""), "nesting": nest})
+        return out
+
     try:
         own = str(f)
     except RecursionError:
-        return out             # a tree deeper than the interpreter stack cannot be printed by recursive code: not judged
+        return stack_finding("str() of the result")
     try:
         again = sansldap.LDAPFilter.from_string(own)
-        if again != f:
-            out.append({"key": None, "what": "accepted filter's own text form parses to a different filter", "text": text, "str": own})
     except RecursionError:
-        return out
+        return stack_finding("parsing its text form")
     except BaseException as e:  # noqa: BLE001
         out.append({"key": None, "what": f"accepted filter's own text form is rejected: {type(e).__name__}", "text": text, "str": own})
+        return out
+    try:
+        same = again == f
+    except RecursionError:
+        return stack_finding("comparing the re-parsed result with it")
+    if not same:
+        out.append({"key": None, "what": "accepted filter's own text form parses to a different filter", "text": text, "str": own})
     return out
 
 
 def direct_total(text):
     """C15 on one input; returns (violations, outcome-class)"""
     try:
-        f = sansldap.LDAPFilter.from_string(text)
+        f = guarded(lambda: sansldap.LDAPFilter.from_string(text))
+    except Hang:
+        return [{"key": None, "what": "from_string does not return (no result and no error within 5 s of CPU on a short input)", "text": text}], "hang"
     except FilterSyntaxError as e:
         n = len(text.strip().encode("utf-8", errors="surrogateescape"))
         if not (isinstance(e.offset, int) and isinstance(e.length, int) and 0 <= e.offset and 0 <= e.length and e.offset + e.length <= n):
